@@ -18,6 +18,8 @@ VARIABLE c
 Span(fam) == IF fam = "nexus" THEN MaxSpanNexus ELSE 4
 A(fam) == IF Quick THEN ClassRepsQ(fam) ELSE ClassReps(fam)
 K(fam) == IF Quick THEN KeywordsQ(fam) ELSE Keywords(fam)
+AD(D) == RepsFor(D.toks, D.fam, Quick)
+KD(D) == KwFor(D.toks, D.fam, Quick)
 Case(D, kind, toks, at, ptok, k) ==
     [doc |-> D.name, fam |-> D.fam, dtype |-> D.dtype, strict |-> D.strict, inter |-> D.inter,
      kind |-> kind, toks |-> toks, at |-> at, ptok |-> ptok, k |-> k]
@@ -25,8 +27,8 @@ Plain(D, kind, S) == {Case(D, kind, e, 0, "", 0) : e \in S}
 EditCases(D) ==
     LET d == D.toks  f == D.fam IN
     Plain(D, "base", {d}) \cup Plain(D, "trunc", Truncations(d)) \cup Plain(D, "del", Deletions(d))
-    \cup Plain(D, "ins", Insertions(d, A(f))) \cup Plain(D, "rep", Replacements(d, A(f)))
-    \cup Plain(D, "span", SpanDropsB(d, Span(f))) \cup Plain(D, "kw", Insertions(d, K(f)))
+    \cup Plain(D, "ins", Insertions(d, AD(D))) \cup Plain(D, "rep", Replacements(d, AD(D)))
+    \cup Plain(D, "span", SpanDropsB(d, Span(f))) \cup Plain(D, "kw", Insertions(d, KD(D)))
 PumpCases(D) ==
     \* the smallest count at every position, the larger ones at every PumpStride-th position
     LET Smallest == CHOOSE k \in PumpKs : \A j \in PumpKs : k <= j IN
@@ -41,7 +43,9 @@ DoubleCases(D) ==
 StringDoc == [name |-> "strings", fam |-> "newick", toks |-> <<>>, dtype |-> "dna", strict |-> FALSE, inter |-> FALSE]
 AllCases == (UNION {EditCases(AllDocs[i]) \cup PumpCases(AllDocs[i]) \cup DoubleCases(AllDocs[i]) : i \in 1..Len(AllDocs)})
             \cup Plain(StringDoc, "string", Strings(MaxLen))
-Init == c = [n |-> Cardinality(AllCases), written |-> ndJsonSerialize(IOEnv.OUT_FILE, SetToSeq(AllCases))]
+\* the reader option rows (ReaderInputs) go to a second file; the driver rotates them over the inputs
+Init == c = [n |-> Cardinality(AllCases), written |-> ndJsonSerialize(IOEnv.OUT_FILE, SetToSeq(AllCases))
+                  /\ JsonSerialize(IOEnv.OUT_FILE \o ".opts", [tree |-> TreeOptionRows, line |-> LineOptionRows])]
 Next == UNCHANGED c
 Written == c.written
 Spec == Init /\ [][Next]_c
